@@ -24,24 +24,24 @@ def op_support(w, ins):
         ok, v = call(w, g.api.support, a.ref)
     expect_ok(w, ok, v, 'C10', 'support')
     if set(v) != want or len(v) != len(want):
-        w.fail('wrong_result', f'support is {sorted(v)}, model says {sorted(want)}', ['C10'])
+        w.fail('wrong_result', f'support is {sorted(v)}, model says {sorted(want)}', owner_tags(w, 'C10'))
     if how == 2:
         ok, v = call(w, g.api.support, a.ref, True)
         expect_ok(w, ok, v, 'C10', 'support(as_levels)')
         sn = w.snapshot(m)
         wl = {sn.order.index(nm) for nm in want}
         if set(v) != wl:
-            w.fail('wrong_result', f'support as levels is {sorted(v)}, model says {sorted(wl)}', ['C10'])
+            w.fail('wrong_result', f'support as levels is {sorted(v)}, model says {sorted(wl)}', owner_tags(w, 'C10'))
     if g.flavor == 'raw':
         for k in declared(w, m):
             ok, v = call(w, g.raw.is_essential, a.ref, w.names[k])
             expect_ok(w, ok, v, 'C10', 'is_essential')
             if bool(v) != (w.names[k] in want):
-                w.fail('wrong_result', f'is_essential({w.names[k]!r}) is {v}, model says {w.names[k] in want}', ['C10'])
+                w.fail('wrong_result', f'is_essential({w.names[k]!r}) is {v}, model says {w.names[k] in want}', owner_tags(w, 'C10'))
         ok, v = call(w, g.raw.is_essential, a.ref, 'no such variable')
         expect_ok(w, ok, v, 'C10', 'is_essential')
         if v:
-            w.fail('wrong_result', 'is_essential of an undeclared name is true', ['C10'])
+            w.fail('wrong_result', 'is_essential of an undeclared name is true', owner_tags(w, 'C10'))
 
 
 def op_count(w, ins):
@@ -62,7 +62,7 @@ def op_count(w, ins):
             return 'skip'
         ok, v = call(w, (lambda f, n: f.count(n)) if fm else g.api.count, a.ref, s + extra)
         if ok:
-            w.fail('not_refused', f'count(u, {s + extra}) with support of {s} variables returned {v!r} instead of refusing', ['C10'])
+            w.fail('not_refused', f'count(u, {s + extra}) with support of {s} variables returned {v!r} instead of refusing', owner_tags(w, 'C10'))
         w.cur_info['expected_raise'] = True
         return
     else:
@@ -70,25 +70,25 @@ def op_count(w, ins):
         want = T.count_over(a.tt, s + extra)
     expect_ok(w, ok, v, 'C10', 'count')
     if v != want or isinstance(v, bool) or not isinstance(v, int):
-        w.fail('wrong_result', f'count returned {v!r}, model says {want}', ['C10'])
+        w.fail('wrong_result', f'count returned {v!r}, model says {want}', owner_tags(w, 'C10'))
 
 
 def _judge_assignment(w, d, tt, care, exact_keys, what):
     T = w.tt
     if not isinstance(d, dict):
-        w.fail('wrong_result', f'{what}: yielded {type(d).__name__}', ['C10'])
+        w.fail('wrong_result', f'{what}: yielded {type(d).__name__}', owner_tags(w, 'C10'))
     asg = {}
     for nm, val in d.items():
         if nm not in w.name_idx or not isinstance(val, bool):
-            w.fail('wrong_result', f'{what}: entry {nm!r}: {val!r}', ['C10'])
+            w.fail('wrong_result', f'{what}: entry {nm!r}: {val!r}', owner_tags(w, 'C10'))
         asg[w.name_idx[nm]] = val
     c = T.cube(asg)
     if c & T.neg(tt):
-        w.fail('wrong_result', f'{what}: assignment {d} does not imply the function', ['C10'])
+        w.fail('wrong_result', f'{what}: assignment {d} does not imply the function', owner_tags(w, 'C10'))
     if not care <= set(asg):
-        w.fail('wrong_result', f'{what}: assignment {d} misses care variables', ['C10'])
+        w.fail('wrong_result', f'{what}: assignment {d} misses care variables', owner_tags(w, 'C10'))
     if exact_keys is not None and set(asg) != exact_keys:
-        w.fail('wrong_result', f'{what}: assignment {d} is not over exactly the support', ['C10'])
+        w.fail('wrong_result', f'{what}: assignment {d} is not over exactly the support', owner_tags(w, 'C10'))
     return c
 
 
@@ -121,7 +121,7 @@ def op_pick(w, ins):
             ok, v = call(w, g.api.pick, a.ref, care_arg)
         expect_ok(w, ok, v, 'C10', 'pick')
         if (v is None) != (a.tt == 0):
-            w.fail('wrong_result', f'pick returned {v!r} for a function that is {"false" if a.tt == 0 else "satisfiable"}', ['C10'])
+            w.fail('wrong_result', f'pick returned {v!r} for a function that is {"false" if a.tt == 0 else "satisfiable"}', owner_tags(w, 'C10'))
         if v is not None:
             _judge_assignment(w, v, a.tt, care_k, exact, 'pick')
         return
@@ -131,12 +131,12 @@ def op_pick(w, ins):
     for d in v:
         c = _judge_assignment(w, d, a.tt, care_k, exact, 'pick_iter')
         if acc & c:
-            w.fail('wrong_result', f'pick_iter: assignment {d} overlaps an earlier one', ['C10'])
+            w.fail('wrong_result', f'pick_iter: assignment {d} overlaps an earlier one', owner_tags(w, 'C10'))
         acc |= c
     if acc != a.tt:
-        w.fail('wrong_result', 'pick_iter: the assignments do not cover all models', ['C10'])
+        w.fail('wrong_result', 'pick_iter: the assignments do not cover all models', owner_tags(w, 'C10'))
     if mode is None and len(v) != T.count_over(a.tt, len(sup)):
-        w.fail('wrong_result', f'pick_iter yielded {len(v)} assignments, count over the support is {T.count_over(a.tt, len(sup))}', ['C10'])
+        w.fail('wrong_result', f'pick_iter yielded {len(v)} assignments, count over the support is {T.count_over(a.tt, len(sup))}', owner_tags(w, 'C10'))
 
 
 # ---------------------------------------------------------------------------
